@@ -570,4 +570,52 @@ def objFnPrim (f : ObjFn) (a : PrimArg) : PrimRes :=
   | .create, .null => .object
   | _, _ => .typeError
 
+/-! ### §8.7.1 / §8.7.2 with a primitive base: the special [[Get]] and [[Put]] on the transient wrapper -/
+
+/-- §8.7.2 steps 1-8 of the special [[Put]] (Throw = false): the setter calls it makes; nothing is stored -/
+def putPrimitive (h : SHeap) (wa : Addr) (n : Name) (v : Val) : List Call :=
+  match h[wa]? with
+  | none => []
+  | some o =>
+    if !canPut h o n then []                                   -- 2
+    else
+      match alookup n o.props with
+      | some (.data ..) => []                                  -- 3, 4
+      | _ =>
+        match getProperty h (fuel h) (some wa) n with          -- 5
+        | some (.acc _ (some k) _ _) => [(k, wa, v)]           -- 6
+        | _ => []                                              -- 7
+
+def primAssign (level : Addr) (d : DescArg) (v : Val) : PrimObs :=
+  let h0 : SHeap := [⟨none, true, []⟩, ⟨some 0, true, []⟩]
+  let r1 := step h0 (.defn level 0 d)
+  let h1 := r1.1
+  let hw := h1 ++ [⟨some 1, true, []⟩]
+  { defOut := r1.2.1
+    calls := putPrimitive hw 2 0 v
+    got := get hw 2 0                                          -- §8.7.1 special [[Get]]
+    holder := match h1[level]? with
+      | some o => observeName h1 level o 0
+      | none => ⟨0, false, false, false, .none⟩ }
+
+/-- §8.10.5 ToPropertyDescriptor steps 3-9: enumerable, configurable, value, writable, get (7.b TypeError
+    at once when not callable), set (8.b), and only then step 9 -/
+def readOrder (d : Desc) : List Nat × Bool :=
+  let r0 := (if d.e.isSome then [0] else []) ++ (if d.c.isSome then [1] else []) ++
+            (if d.v.isSome then [3] else []) ++ (if d.w.isSome then [2] else [])
+  let r1 := r0 ++ (if d.g.isPresent then [4] else [])
+  if d.g.isBad then (r1, true) else
+  let r2 := r1 ++ (if d.s.isPresent then [5] else [])
+  if d.s.isBad then (r2, true) else
+  (r2, (d.g.isPresent || d.s.isPresent) && (d.v.isSome || d.w.isSome))
+
+/-- §11.1.5, §11.1.4, §15.12.2, §15.2.3.3-7, §10.6, §15.5.4.10/14, §15.4.4.x, §15.11.2.1: all these create
+    own properties with [[DefineOwnProperty]] – an inherited accessor or read-only property is not consulted -/
+def builtinCreates (b : Builtin) : List Call × DescObs :=
+  match b with
+  | .error => ([], .data 997 true false true)
+  | .gopd => ([], .data 4 true true true)
+  | .smatch | .split | .keys => ([], .data 997 true true true)
+  | _ => ([], .data 4 true true true)
+
 end OttoVerif.C07.Spec
